@@ -9,6 +9,11 @@ package main
 // real GetNextVersion), `transaction.Refund` is called for a refund list (the loop of assembler.refundCandidateDeposit; its
 // order comes out of a Go map in the engine, here the harness picks it), then the real ChangeVotesByBalance,
 // Manager.MergeChangeLogs, Manager.Finalise, GetChangeLogs, GetVersionRoot, and Save + a new Manager for the next block.
+// All 19 change-log types are driven: besides the generic setters (`mo-w`), SetAssetCode incl. nil (`mo-asset`),
+// SetAssetCodeState (`mo-astate`), SetAssetCodeTotalSupply (`mo-supply`), SetSuicide (`mo-suicide`) and the real tx handler
+// RunAssetEnv.ModifyAssetProfileTx (`mo-modprof`: the profile reaches it as a Go map); the published line of an AddEventLog
+// carries the Index updateVersion wrote. `mo-site` rows (c01_sites.go): every map range of the block-execution packages.
+// Every generated block is Saved: oracle c01/block-not-savable/<cause>.
 // Every call is one `mo-…` op line; the Lean driver (Driver/C01.lean → LemoModel.MergeOrder) answers the same lines from
 // the op lines alone (initial state = empty database: nothing the code under test computed is fed to the model).
 // Compared: the raw journal (type, extra, provisional version, OldVal, NewVal), the journal length after the vote pass,
@@ -20,6 +25,7 @@ package main
 // and version root.
 
 import (
+	"encoding/json"
 	"fmt"
 	"math/big"
 	"os"
@@ -48,7 +54,9 @@ func init() {
 
 // ---- labels -------------------------------------------------------------------------------------------------------
 
-var moKeyNames = map[int]string{1: types.CandidateKeyIsCandidate, 2: types.CandidateKeyDepositAmount, 3: "k3", 4: "k4"}
+// labels 3..9 are order-isomorphic to their strings ("k3" < … < "k9"): the asset-profile ops use only those (sort.Strings
+// in ModifyAssetProfileTx vs. the numeric sort of the model)
+var moKeyNames = map[int]string{1: types.CandidateKeyIsCandidate, 2: types.CandidateKeyDepositAmount, 3: "k3", 4: "k4", 5: "k5", 6: "k6", 7: "k7", 8: "k8", 9: "k9"}
 
 func moKeyLabel(s string) int {
 	for k, v := range moKeyNames {
@@ -124,9 +132,27 @@ func moValLabel(t types.ChangeLogType, v interface{}, isOld bool) string {
 		if b, ok := v.([]byte); ok {
 			return new(big.Int).SetBytes(b).String()
 		}
-	case account.AssetIdLog, account.CandidateStateLog:
+	case account.AssetIdLog, account.CandidateStateLog, account.AssetCodeStateLog:
 		if s, ok := v.(string); ok {
 			return moStrLabel(s)
+		}
+	case account.AssetCodeLog:
+		if a, ok := v.(*types.Asset); ok {
+			return moAssetLabel(a)
+		}
+	case account.SuicideLog:
+		if !isOld {
+			if v == nil {
+				return "0"
+			}
+			return fmt.Sprintf("?%T", v)
+		}
+		if d, ok := v.(*types.AccountData); ok && d != nil {
+			empty := func(h common.Hash) bool { return h == (common.Hash{}) || h == common.Sha3Nil }
+			if d.Balance.Sign() != 0 || !empty(d.CodeHash) || !empty(d.StorageRoot) {
+				return "1"
+			}
+			return "0"
 		}
 	case account.EquityLog:
 		if v == nil {
@@ -187,10 +213,46 @@ func moValLabel(t types.ChangeLogType, v interface{}, isOld bool) string {
 	return fmt.Sprintf("?%T", v)
 }
 
+// label of a *types.Asset: 0 = nil, else (profile·1000 + Category)·10^6 + TotalSupply (LemoModel.MergeOrder.assetLabel)
+func moAssetLabel(a *types.Asset) string {
+	if a == nil {
+		return "0"
+	}
+	keys := make([]int, 0)
+	for k := range a.Profile {
+		keys = append(keys, moKeyLabel(k))
+	}
+	sort.Ints(keys)
+	acc := new(big.Int)
+	for _, k := range keys {
+		acc.Mul(acc, big.NewInt(100))
+		acc.Add(acc, big.NewInt(int64(k)))
+		acc.Mul(acc, big.NewInt(1000000))
+		l, _ := new(big.Int).SetString(moStrLabel(a.Profile[moKeyNames[k]]), 10)
+		if l == nil {
+			return "?asset-profile"
+		}
+		acc.Add(acc, l)
+	}
+	acc.Mul(acc, big.NewInt(1000))
+	acc.Add(acc, big.NewInt(int64(a.Category)))
+	acc.Mul(acc, big.NewInt(1000000))
+	if a.TotalSupply != nil {
+		acc.Add(acc, a.TotalSupply)
+	}
+	return acc.String()
+}
+
 func moExtraLabel(l *types.ChangeLog) string {
 	switch e := l.Extra.(type) {
 	case nil:
 		return "0"
+	case *account.ProfileChangeLogExtra:
+		if e == nil {
+			return "?nil-extra"
+		}
+		n := new(big.Int).Mul(e.UUID.Big(), big.NewInt(100))
+		return n.Add(n, big.NewInt(int64(moKeyLabel(e.Key)))).String()
 	case common.Hash:
 		return e.Big().String()
 	case string:
@@ -199,8 +261,15 @@ func moExtraLabel(l *types.ChangeLog) string {
 	return fmt.Sprintf("?%T", l.Extra)
 }
 
+// published line; an AddEventLog also shows the Index updateVersion wrote into its event record
 func moShowLog(l *types.ChangeLog) string {
-	return fmt.Sprintf("%s:%d:%s:%d:%s", l.Address.Big().String(), uint32(l.LogType), moExtraLabel(l), l.Version, moValLabel(l.LogType, l.NewVal, false))
+	s := fmt.Sprintf("%s:%d:%s:%d:%s", l.Address.Big().String(), uint32(l.LogType), moExtraLabel(l), l.Version, moValLabel(l.LogType, l.NewVal, false))
+	if l.LogType == account.AddEventLog {
+		if e, ok := l.NewVal.(*types.Event); ok && e != nil {
+			s += fmt.Sprintf("#%d", e.Index)
+		}
+	}
+	return s
 }
 
 func moShowRaw(l *types.ChangeLog) string {
@@ -218,7 +287,8 @@ func moJoin(l []string) string {
 // ---- ops ----------------------------------------------------------------------------------------------------------
 
 type moOp struct {
-	kind  string // w prof refund votes
+	kind  string // w prof refund votes asset astate supply suicide modprof
+	sup   int64      // asset: total supply (val = id label, 0 = nil asset; extra = asset code; prof = profile)
 	addr  *big.Int
 	ty    int
 	extra int
@@ -245,8 +315,37 @@ func (o moOp) line() string {
 		return fmt.Sprintf("mo-prof %s %s", o.addr, strings.Join(ps, ","))
 	case "refund":
 		return fmt.Sprintf("mo-refund %s", o.addr)
+	case "asset":
+		return fmt.Sprintf("mo-asset %s %d %d %d %s", o.addr, o.extra, o.val, o.sup, o.profStr())
+	case "astate":
+		return fmt.Sprintf("mo-astate %s %d %d %d", o.addr, o.extra/100, o.extra%100, o.val)
+	case "supply":
+		return fmt.Sprintf("mo-supply %s %d %d", o.addr, o.extra, o.val)
+	case "suicide":
+		return fmt.Sprintf("mo-suicide %s", o.addr)
+	case "modprof":
+		return fmt.Sprintf("mo-modprof %s %d %s", o.addr, o.extra, o.profStr())
 	}
 	return "mo-votes"
+}
+
+func (o moOp) profStr() string {
+	if len(o.prof) == 0 {
+		return "-"
+	}
+	ps := make([]string, len(o.prof))
+	for i, p := range o.prof {
+		ps[i] = fmt.Sprintf("%d:%d", p[0], p[1])
+	}
+	return strings.Join(ps, ",")
+}
+
+func (o moOp) profile() types.Profile {
+	p := make(types.Profile)
+	for _, kv := range o.prof {
+		p[moKeyNames[int(kv[0])]] = moStr(kv[1])
+	}
+	return p
 }
 
 // apply runs one op on the real manager; the answer is what the op line is answered with
@@ -274,6 +373,39 @@ func (o moOp) applyRaw(am *account.Manager) string {
 				p[moKeyNames[int(kv[0])]] = moStr(kv[1])
 			}
 			am.GetAccount(moAddr(o.addr)).SetCandidate(p)
+			return "ok"
+		case "asset":
+			var a *types.Asset
+			if o.val != 0 {
+				a = &types.Asset{Category: uint32(o.val), IsDivisible: true, AssetCode: moHash(o.extra), Decimal: 2,
+					TotalSupply: big.NewInt(o.sup), IsReplenishable: true, Issuer: moAddr(o.addr), Profile: o.profile()}
+			}
+			if err := am.GetAccount(moAddr(o.addr)).SetAssetCode(moHash(o.extra), a); err != nil {
+				return "err"
+			}
+			return "ok"
+		case "astate":
+			if err := am.GetAccount(moAddr(o.addr)).SetAssetCodeState(moHash(o.extra/100), moKeyNames[o.extra%100], moStr(o.val)); err != nil {
+				return "err"
+			}
+			return "ok"
+		case "supply":
+			if err := am.GetAccount(moAddr(o.addr)).SetAssetCodeTotalSupply(moHash(o.extra), big.NewInt(o.val)); err != nil {
+				return "err"
+			}
+			return "ok"
+		case "suicide":
+			am.GetAccount(moAddr(o.addr)).SetSuicide(true)
+			return "ok"
+		case "modprof":
+			// the REAL tx handler (asset_tx.go): the profile reaches it as a Go map inside the tx data
+			data, err := json.Marshal(&types.ModifyAssetInfo{AssetCode: moHash(o.extra), UpdateProfile: o.profile()})
+			if err != nil {
+				panic(err)
+			}
+			if err := transaction.NewRunAssetEnv(am).ModifyAssetProfileTx(moAddr(o.addr), data); err != nil {
+				return "err"
+			}
 			return "ok"
 		}
 		acc := am.GetAccount(moAddr(o.addr))
@@ -428,10 +560,13 @@ func moCommit(db *store.ChainDatabase, parent common.Hash, height uint32, res *m
 		panic("mo: SetBlock: " + err.Error())
 	}
 	if err := res.am.Save(h); err != nil {
-		panic("mo: Save: " + err.Error())
+		panic(moSaveError("mo: Save: " + err.Error()))
 	}
 	return h
 }
+
+// moSaveError: Manager.Save refused the block (recovered by the caller of moCommit)
+type moSaveError string
 
 // ---- generator ----------------------------------------------------------------------------------------------------------
 
@@ -474,7 +609,72 @@ func (g *moGen) genesisOps() []moOp {
 	for i, a := range g.univ {
 		ops = append(ops, moOp{kind: "w", addr: a, ty: 17, vaddr: g.cands[i%len(g.cands)]})
 	}
+	// committed asset records (non-zero asset-code roots in the later blocks), one account with committed storage + code
+	ops = append(ops,
+		moOp{kind: "asset", addr: g.univ[1], extra: 1, val: 1, sup: 100, prof: [][2]int64{{3, 3}, {4, 4}}},
+		moOp{kind: "asset", addr: g.univ[5], extra: 2, val: 2, sup: 50},
+		moOp{kind: "asset", addr: g.univ[7], extra: 1, val: 1, sup: 10, prof: [][2]int64{{5, 1}}},
+		moOp{kind: "w", addr: g.univ[7], ty: 2, extra: 1, val: 3},
+		moOp{kind: "w", addr: g.univ[7], ty: 8, extra: 1, val: 2},
+		moOp{kind: "w", addr: g.univ[8], ty: 8, extra: 2, val: 3})
 	return ops
+}
+
+// asset records, SetSuicide, the ModifyAssetProfileTx handler
+func (g *moGen) randomAssetOp() moOp {
+	r := g.c.Rnd
+	a := []*big.Int{g.univ[1], g.univ[5], g.univ[7], g.univ[2], g.univ[8]}[r.Intn(5)]
+	if r.Intn(8) == 0 {
+		a = g.pickAddr()
+	}
+	code := 1 + r.Intn(2)
+	if r.Intn(4) != 0 {
+		// mostly an (account, code) pair that holds a committed asset record
+		switch r.Intn(3) {
+		case 0:
+			a, code = g.univ[1], 1
+		case 1:
+			a, code = g.univ[5], 2
+		default:
+			a, code = g.univ[7], 1
+		}
+	}
+	randProf := func(maxKeys int) [][2]int64 {
+		var p [][2]int64
+		for k := 3; k <= 9 && len(p) < maxKeys; k++ {
+			if r.Intn(3) == 0 {
+				p = append(p, [2]int64{int64(k), int64(1 + r.Intn(4))})
+			}
+		}
+		return p
+	}
+	switch r.Intn(12) {
+	case 0, 1:
+		return moOp{kind: "asset", addr: a, extra: code, val: int64(1 + r.Intn(2)), sup: []int64{0, 10, 50, 100}[r.Intn(4)], prof: randProf(3)}
+	case 2:
+		return moOp{kind: "asset", addr: a, extra: code}
+	case 3, 4:
+		return moOp{kind: "astate", addr: a, extra: code*100 + 3 + r.Intn(5), val: int64(1 + r.Intn(4))}
+	case 5:
+		return moOp{kind: "supply", addr: a, extra: code, val: []int64{0, 10, 50, 100, 150}[r.Intn(5)]}
+	case 6:
+		if r.Intn(3) == 0 {
+			a = g.pickAddr()
+		}
+		return moOp{kind: "suicide", addr: a}
+	case 7:
+		return moOp{kind: "w", addr: a, ty: 15, val: int64(1 + r.Intn(5))}
+	}
+	p := randProf(5)
+	if len(p) == 0 && r.Intn(4) != 0 {
+		p = [][2]int64{{int64(3 + r.Intn(7)), int64(1 + r.Intn(4))}, {int64(3 + r.Intn(7)), int64(1 + r.Intn(4))}}
+		if p[0][0] == p[1][0] {
+			p = p[:1]
+		} else if p[0][0] > p[1][0] {
+			p[0], p[1] = p[1], p[0]
+		}
+	}
+	return moOp{kind: "modprof", addr: a, extra: code, prof: p}
 }
 
 func (g *moGen) pickAddr() *big.Int { return g.univ[g.c.Rnd.Intn(len(g.univ))] }
@@ -486,6 +686,9 @@ func (g *moGen) randomOp() moOp {
 		a = g.pool
 	}
 	small := []int64{0, 1, 2, 3}
+	if r.Intn(4) == 0 {
+		return g.randomAssetOp()
+	}
 	switch r.Intn(14) {
 	case 0, 1, 2, 3:
 		return moOp{kind: "w", addr: a, ty: 1, val: []int64{0, 5, 10, 15, 25, 40, 100, 155, 1000}[r.Intn(9)]}
@@ -585,6 +788,9 @@ func c01Merge(c *Ctx, n int) {
 		c.Op(fmt.Sprintf("mo-needmerge %d %d", t, b), "ok")
 	}
 
+	// every map range of the block-execution packages, against the committed table (c01_sites.go)
+	c01Sites(c)
+
 	c.Op(fmt.Sprintf("mo-new %s %s", params.VoteExchangeRate, g.pool), "ok")
 	// block 0
 	gops := g.genesisOps()
@@ -619,7 +825,24 @@ func c01Merge(c *Ctx, n int) {
 			k := 3 + c.Rnd.Intn(22)
 			for i := 0; i < k; i++ {
 				o := g.randomOp()
+				// a contract created and destroyed in one block: CodeLog, [storage write,] SuicideLog of one account
+				if o.kind == "suicide" && c.Rnd.Intn(3) == 0 {
+					setters = append(setters, moOp{kind: "w", addr: o.addr, ty: 14, val: int64(1 + c.Rnd.Intn(2))})
+					if c.Rnd.Intn(2) == 0 {
+						setters = append(setters, moOp{kind: "w", addr: o.addr, ty: 2, extra: 1 + c.Rnd.Intn(3), val: int64(1 + c.Rnd.Intn(3))})
+					}
+					c.Count("mo-class:code-then-suicide")
+				}
 				setters = append(setters, o)
+				// several events of one account in one block (Index 0, 1, 2 …), other logs in between
+				if o.kind == "w" && o.ty == 15 {
+					for c.Rnd.Intn(2) == 0 {
+						if c.Rnd.Intn(2) == 0 {
+							setters = append(setters, g.randomOp())
+						}
+						setters = append(setters, moOp{kind: "w", addr: o.addr, ty: 15, val: int64(1 + c.Rnd.Intn(5))})
+					}
+				}
 				// no-op changes and A→B→A runs: repeat the slot with another / the same value
 				if c.Rnd.Intn(4) == 0 {
 					o2 := g.randomOp()
@@ -725,9 +948,48 @@ func c01Merge(c *Ctx, n int) {
 				check("cache-contents", ops, pre, []*big.Int{g.pickAddr(), moBig("0x7777")})
 			}
 
-			if b+1 < blocks {
-				parent = moCommit(db, parent, height, res, salt)
+			// Save of EVERY generated block (the journals are ones the EVM can produce): oracle
+			// c01/block-not-savable/<cause>. SetCode followed by SetSuicide on one account in one block used to make
+			// Account.Save write the (by then nil) code under the zero hash, which the store refuses (/repo cbf3870).
+			{
+				saveErr := ""
+				var next common.Hash
+				func() {
+					defer func() {
+						if r := recover(); r != nil {
+							if e, ok := r.(moSaveError); ok {
+								saveErr = string(e)
+								return
+							}
+							panic(r)
+						}
+					}()
+					next = moCommit(db, parent, height, res, salt)
+				}()
 				salt++
+				c.Count("mo-save")
+				if saveErr != "" {
+					lines := make([]string, len(ops))
+					coded := map[string]bool{}
+					cause := "other"
+					for i, o := range ops {
+						lines[i] = o.line()
+						if o.kind == "w" && o.ty == 14 && o.val != 0 {
+							coded[o.addr.String()] = true
+						}
+						if o.kind == "suicide" && coded[o.addr.String()] {
+							cause = "code-then-suicide"
+						}
+					}
+					c.Count("mo-save-failed:" + cause)
+					c.Fail("c01/block-not-savable/"+cause, "Manager.Save refused a block whose journal the engine can produce: "+saveErr+" | published "+res.published,
+						map[string]interface{}{"case": cs, "block": b, "ops": lines})
+					break
+				}
+				if b+1 >= blocks {
+					break
+				}
+				parent = next
 				height++
 				c.Op("mo-commit", "ok")
 				c.Count("mo-commit")
@@ -757,6 +1019,10 @@ func moClasses(c *Ctx, res *moResult) {
 	for _, p := range pub {
 		f := strings.Split(p, ":")
 		accts[f[0]] = true
+		c.Count("mo-pub-type:" + f[1])
+		if f[1] == "15" && !strings.HasSuffix(f[4], "#0") {
+			c.Count("mo-class:event-index>0")
+		}
 		if f[4] == "R" {
 			c.Count("mo-class:root-log:" + f[1])
 		}
